@@ -35,6 +35,8 @@ VALS = {
     "du": datetime(2024, 10, 26, 10, 0, tzinfo=__import__("dateutil.tz").tz.gettz("Europe/Berlin")),
     "fx": datetime(2024, 3, 30, 10, 0, tzinfo=timezone(timedelta(hours=5, minutes=30))),
     # instances of user subclasses of date / datetime (mc/userkinds.py): same kinds as the plain values
+    # the SECOND occurrence of a repeated wall time (fold=1): a start without end or duration ends at that very value
+    "zf": datetime(2024, 10, 27, 2, 30, fold=1, tzinfo=BERLIN),
     "sd": Day(2024, 5, 2), "sn": Stamp(2024, 5, 1, 11, 0), "su": Stamp(2024, 5, 2, 9, 0, tzinfo=timezone.utc),
 }
 DURS = {"P0": timedelta(0), "P1D": timedelta(days=1), "PT1H": timedelta(hours=1), "P1DT2H": timedelta(days=1, hours=2)}
@@ -224,6 +226,8 @@ def same(obs, want):
         if type(a) is not type(b) and not (isinstance(a, datetime) and isinstance(b, datetime)):
             return False
         try:
+            if isinstance(a, datetime) and a.tzinfo is not None and b.tzinfo is not None and a.utcoffset() != b.utcoffset():
+                return False  # same wall clock, other occurrence of a repeated hour: another instant (== ignores fold)
             return a == b and (not isinstance(a, datetime) or (a.tzinfo is None) == (b.tzinfo is None))
         except TypeError:
             return False
